@@ -102,8 +102,15 @@ func nestCases() []nestCase {
 		cs = append(cs, nestCase{"marshalto", &mtMsg{payload: p}, func() interface{} { return &mtMsg{} }, eqStub, false})
 		cs = append(cs, nestCase{"marshalonly", &moMsg{payload: p}, func() interface{} { return &moMsg{} }, eqStub, false})
 	}
-	cs = append(cs, nestCase{"marshalto", &mtMsg{payload: payloadN(5), fail: true}, nil, nil, true})
-	cs = append(cs, nestCase{"marshalonly", &moMsg{payload: payloadN(5), fail: true}, nil, nil, true})
+	for _, n := range []int{0, 5, 128} {
+		cs = append(cs, nestCase{"marshalto", &mtMsg{payload: payloadN(n), fail: true}, nil, nil, true})
+		cs = append(cs, nestCase{"marshalonly", &moMsg{payload: payloadN(n), fail: true}, nil, nil, true})
+	}
+	// a value no runtime knows: csproto.Marshal reports ErrMarshaler, Size is 0
+	cs = append(cs, nestCase{"unsupported", &struct{ X int }{X: 1}, nil, nil, true})
+	// google v2 proto2 messages with required fields unset: proto.Marshal fails (size 0 and size > 0)
+	cs = append(cs, nestCase{"googlev2", &descriptorpb.UninterpretedOption_NamePart{}, nil, nil, true})
+	cs = append(cs, nestCase{"googlev2", &descriptorpb.UninterpretedOption{Name: []*descriptorpb.UninterpretedOption_NamePart{{NamePart: proto.String("x")}}}, nil, nil, true})
 	eqV2 := func(a, b interface{}) bool { return proto.Equal(a.(proto.Message), b.(proto.Message)) }
 	st1, _ := structpb.NewStruct(map[string]interface{}{"k": "v"})
 	long := make([]byte, 200)
@@ -166,6 +173,14 @@ func famNest(thorough bool) {
 		for pos := 0; pos < 3; pos++ { // 0 = first, 1 = middle, 2 = last
 			fn := fns[(ci+pos)%len(fns)]
 			var mb []byte
+			var refErr error
+			if c.fail {
+				_, refErr = csproto.Marshal(c.msg)
+				if refErr == nil {
+					fmt.Println("harness: failing fixture marshals fine")
+					continue
+				}
+			}
 			if !c.fail {
 				var err error
 				mb, err = csproto.Marshal(c.msg)
@@ -215,7 +230,7 @@ func famNest(thorough bool) {
 			if e.St == "" {
 				if err != nil {
 					e.St = "err"
-					if err == errMarshal {
+					if err == errMarshal || (refErr != nil && (errors.Is(err, refErr) || err.Error() == refErr.Error())) {
 						e.Same = 1
 					}
 				} else {
@@ -228,7 +243,7 @@ func famNest(thorough bool) {
 			}
 			w.NextGroup()
 			w.Emit(e)
-			if e.St != "ok" {
+			if e.St != "ok" || c.fail || c.fresh == nil {
 				continue
 			}
 			if post > 0 {
@@ -271,6 +286,26 @@ func famNest(thorough bool) {
 				doCall(d, ib, call{op: "Bool"}, true, tr.Word(1), nil)
 			}
 			doCall(d, ib, call{op: "More"}, true, []int{0}, nil)
+			// truncations of the nested field (it is the last field when pos != 1): stub decoder, both modes
+			if pos != 1 && len(mb) > 0 {
+				full := buf[:enc.VerifOffset()]
+				for cut := 1; cut <= 3 && cut <= len(mb); cut++ {
+					for mode := 0; mode <= 1; mode++ {
+						tb := mkbuf(full[:len(full)-cut])
+						w.NextGroup()
+						td := newDecoder(tb)
+						if mode == 1 {
+							doCall(td, tb, call{op: "SetMode", i1: 1}, false, nil, nil)
+						}
+						if pre > 0 {
+							doCall(td, tb, call{op: "Tag"}, true, []int{1, 2}, nil)
+							doCall(td, tb, call{op: "Bytes"}, true, []int{0x42}, nil)
+						}
+						doCall(td, tb, call{op: "Tag"}, true, []int{fn, 2}, nil)
+						doCall(td, tb, call{op: "Nested", i1: 0}, false, nil, nil)
+					}
+				}
+			}
 		}
 	}
 	// EncodeRaw and EncodeMapEntryHeader
